@@ -18,7 +18,9 @@ def scope_params(tier):
 def run_bounded(pid, tier):
     params = scope_params(tier)
     gs = grammars(params["n_prods"], 2)
-    items = [(pid, g, params) for g in gs]
+    from vlib import corpus
+    extra = corpus.classic() + corpus.rule_orders()
+    items = [(pid, g, params) for g in gs] + [(pid, g, dict(params, max_len=min(params["max_len"], 4))) for g in extra]
     if pid == "C08":
         # lexical overlap: forked GLR heads must keep positions and layout too
         ogs = grammars(3, 2)
